@@ -146,7 +146,7 @@ def run_one(args):
     with tr:
         chooser = vrt.ReplayChooser(choices) if choices is not None else None
         ctx = vrt.run_scenario(scenario, refbroker.factory(policy), seed=seed, chooser=chooser, p_preempt=0.12,
-                               p_jump=0.1, repo_path=str(common.REPO))
+                               p_jump=0.1, fair_time=(seed % 2 == 1), repo_path=str(common.REPO))
     out['abort'] = ctx.sched.abort_reason
     out['choices'] = ctx.choices
     out['preemptions'] = ctx.sched.preemptions
